@@ -577,6 +577,12 @@ def check_u12(ctx) -> None:
     for f in repo.all_functions():
         if f.module.rel.endswith('geophires_x/Parameter.py') or '/src/' not in '/' + f.module.rel:
             continue
+        # locals that stand for `<obj>.value` (the list object itself): an element store through the alias changes the value too
+        alias_of: Dict[str, str] = {}
+        for a_ in ast.walk(f.node):
+            if isinstance(a_, ast.Assign) and len(a_.targets) == 1 and isinstance(a_.targets[0], ast.Name) and isinstance(a_.value, ast.Attribute) \
+                    and a_.value.attr == 'value':
+                alias_of[a_.targets[0].id] = norm(a_.value)
         for st in ast.walk(f.node):
             if not (isinstance(st, ast.Assign) and isinstance(st.targets[0], ast.Attribute) and st.targets[0].attr == 'CurrentUnits'):
                 continue
@@ -590,7 +596,7 @@ def check_u12(ctx) -> None:
                     if isinstance(a, (ast.Assign, ast.AugAssign)):
                         tgt = a.targets[0] if isinstance(a, ast.Assign) else a.target
                         base = tgt.value if isinstance(tgt, ast.Subscript) else tgt
-                        if norm(base) == obj + '.value':
+                        if norm(base) == obj + '.value' or (isinstance(tgt, ast.Subscript) and alias_of.get(norm(base)) == obj + '.value'):
                             paired = True
                 if paired:
                     break
